@@ -23,7 +23,7 @@ def hx(b):
 
 
 def unhx(s):
-    return b"" if s == "-" else bytes.fromhex(s)
+    return b"" if s in ("-", "none") else bytes.fromhex(s)
 
 
 # ---------------------------------------------------------------------------- line encoding
